@@ -270,9 +270,74 @@ def regen(ctx):
 
 
 # =============================================================================== cases
+PTR_C = r"""
+#include <string.h>
+struct c33pp { int a; int b; long c; };
+union c33pu { int i; long l; char c[12]; };
+struct c33big { int a; char pad[700]; int z; };
+void c33_dirty_stack(void) { volatile char buf[16384]; memset((void *)buf, 0xAB, sizeof buf); }
+long c33_pp_sum(struct c33pp *p, int n) { unsigned long s = 0; int i;
+  for (i = 0; i < n; i++) s = s * 31 + (unsigned long)p[i].a * 7UL + (unsigned long)p[i].b * 13UL + (unsigned long)p[i].c; return (long)s; }
+long c33_pu_sum(union c33pu *p, int n) { unsigned long s = 0; int i;
+  for (i = 0; i < n; i++) s = s * 31 + (unsigned long)p[i].l + (unsigned long)p[i].c[8] * 3UL + (unsigned long)p[i].c[11] * 5UL; return (long)s; }
+long c33_arr_sum(int (*p)[4], int n) { unsigned long s = 0; int i, j;
+  for (i = 0; i < n; i++) for (j = 0; j < 4; j++) s = s * 7 + (unsigned long)p[i][j]; return (long)s; }
+long c33_big_sum(struct c33big *p, int n) { unsigned long s = 0; int i;
+  for (i = 0; i < n; i++) s = s * 31 + (unsigned long)p[i].a + (unsigned long)p[i].pad[0] * 3UL + (unsigned long)p[i].pad[350] * 5UL + (unsigned long)p[i].pad[699] * 7UL + (unsigned long)p[i].z * 11UL;
+  return (long)s; }
+"""
+PTR_CDEF = """
+struct c33pp { int a; int b; long c; };
+union c33pu { int i; long l; char c[12]; };
+struct c33big { int a; char pad[700]; int z; };
+void c33_dirty_stack(void);
+long c33_pp_sum(struct c33pp *, int); long c33_pu_sum(union c33pu *, int);
+long c33_arr_sum(int (*)[4], int); long c33_big_sum(struct c33big *, int);
+"""
+
+
+def ptr_calls(rng):
+    """lists of partial initialisers: <= 640 bytes (alloca path of the CPython engine) and > 640 bytes"""
+    k = rng.randint(1, 100)
+    calls = [["c33_pp_sum", [[[k]], 1]], ["c33_pp_sum", [[{"a": k}], 1]], ["c33_pp_sum", [[{"c": k}], 1]],
+             ["c33_pp_sum", [[[1], [2, 3], {"b": k}], 3]], ["c33_pp_sum", [[[k]] * 50, 50]],
+             ["c33_pu_sum", [[[k]], 1]], ["c33_pu_sum", [[[k], [k + 1]], 2]], ["c33_pu_sum", [[[k]] * 45, 45]],
+             ["c33_arr_sum", [[[k]], 1]], ["c33_arr_sum", [[[1, 2], [k]], 2]], ["c33_arr_sum", [[[k]] * 41, 41]],
+             ["c33_big_sum", [[[k]], 1]], ["c33_big_sum", [[{"z": k}], 1]], ["c33_big_sum", [[[k], {"z": 3}], 2]]]
+    return calls
+
+
+def ptr_expected(fname, args):
+    """what C computes when every field the initialiser does not name is zero"""
+    items, n = args
+    s = 0
+    for it in items[:n]:
+        if fname == "c33_pp_sum":
+            f = dict(a=0, b=0, c=0)
+            f.update(it if isinstance(it, dict) else dict(zip("abc", it)))
+            s = s * 31 + f["a"] * 7 + f["b"] * 13 + f["c"]
+        elif fname == "c33_pu_sum":
+            s = s * 31 + it[0]          # union initialised through its first member (int i); little endian
+        elif fname == "c33_arr_sum":
+            row = list(it) + [0] * (4 - len(it))
+            for v in row:
+                s = s * 7 + v
+        else:
+            f = dict(a=0, z=0)
+            f.update(it if isinstance(it, dict) else dict(zip(["a"], it)))
+            s = s * 31 + f["a"] + f["z"] * 11
+    s %= 1 << 64                       # unsigned long arithmetic, returned as long
+    return s - (1 << 64) if s >= (1 << 63) else s
+
+
 def generate(ctx):
     n = ctx.n(3, 100)
-    return [c12.gen_module(ctx.rng, i, (8, 3, 8, 4, 5, 2), for_verify=True, prefix="_c33_") for i in range(n)]
+    out = []
+    for i in range(n):
+        m = c12.gen_module(ctx.rng, i, (8, 3, 8, 4, 5, 2), for_verify=True, prefix="_c33_")
+        m["raw_c"], m["raw_cdef"], m["ptr_calls"] = PTR_C, PTR_CDEF, ptr_calls(ctx.rng)
+        out.append(m)
+    return out
 
 
 def diff(a, b, path=""):
@@ -310,6 +375,9 @@ def evaluate(ctx, cases):
     for m, r in zip(cases, out["results"]):
         routes = r["routes"]
         bad = False
+        if r.get("facts_error") or not r.get("facts"):
+            ctx.obligation_broken("C33 harness (gcc facts program)", str(r.get("facts_error")))
+            continue
         for name, rr in routes.items():
             if "harness_error" in rr or ("crash" in rr and "did not finish" in rr["crash"]):
                 ctx.obligation_broken("C33 harness (%s, %s)" % (m["name"], name), rr.get("harness_error") or rr["crash"])
@@ -324,6 +392,18 @@ def evaluate(ctx, cases):
         if bad:
             continue
         ref = routes["set_source"]["probe"]
+        for name in c33_routes():
+            for key, got in sorted(routes[name]["probe"].pop("ptrcalls", {}).items()):
+                ctx.count()
+                idx = int(key.split(":")[0])
+                fname, args = m["ptr_calls"][idx]
+                want = ptr_expected(fname, args)
+                ctx.hist("ptr_arg", fname)
+                ctx.nontrivial(("ptr", fname, args))
+                if got != {"ok": want}:
+                    ctx.violation(dict(c12.single(m), raw_c=m["raw_c"], raw_cdef=m["raw_cdef"], ptr_calls=[m["ptr_calls"][idx]]),
+                                  "%s: %s%r: fields not named by the initialiser must be zero: C computed %r, expected %d"
+                                  % (name, fname, tuple(args), got, want))
         for name in ("verify_cpy", "verify_gen"):
             pr = routes[name]["probe"]
             for section in sorted(ref):
